@@ -109,6 +109,11 @@ class _StatePointDict(JSONAttrDict):
         pass
 
     def _save(self):
+        # Like the base class, do nothing while synchronization is suspended,
+        # i.e. while an update of (nested) data is still in progress.
+        if self._suspend_sync:
+            return
+
         # State point modification triggers job migration for all jobs sharing
         # this state point (shallow copies of a single job).
         new_id = calc_id(self)
